@@ -113,40 +113,67 @@ def r2_r3_r4(cx):
             continue
         orig_side = "key" if k_orig else "value"
         if o["scan"]:
-            loops = [s for s in walk_body(fn.body) if isinstance(s, ast.For) and call_attr(s.iter) == "items" and U(s.iter.func.value) in aliases]
-            scan = None
-            for lp in loops:
-                if any(isinstance(x, ast.Compare) for x in walk_body(lp.body)) and enclosing(lp, (ast.If,)) is None or loops and lp is loops[0]:
-                    scan = lp
-                    break
-            if scan is None:
+            # the scan may live in the function itself or in a look-up helper whose result the function tests
+            scan_fn, via = fn, None
+            loops = [s for s in walk_body(fn.body) if isinstance(s, ast.For) and call_attr(s.iter) == "items" and U(s.iter.func.value) in aliases | set([db_attr])]
+            if not loops:
+                for a in walk_body(fn.body):
+                    if isinstance(a, ast.Assign) and isinstance(a.value, ast.Call) and U(a.value.func).startswith("self.") and isinstance(a.targets[0], ast.Name):
+                        kc, h = cx.repo.lookup_method(c, a.value.func.attr)
+                        if h is not None:
+                            hl = [s for s in walk_body(h.body) if isinstance(s, ast.For) and call_attr(s.iter) == "items" and U(s.iter.func.value) in (db_attr, "db")]
+                            if hl and a.value.args and _derives_from_param(a.value.args[0], fn):
+                                scan_fn, via, loops = h, a, hl
+            if not loops:
                 cx.bad(fn, "%s.%s scans the table for the original before issuing" % (o["cls"], o["fn"]), construct="(no scan loop)")
                 continue
+            scan = loops[0]
             kv = [U(e) for e in scan.target.elts]
             ovar = kv[0] if orig_side == "key" else kv[1]
             svar = kv[1] if orig_side == "key" else kv[0]
             cmps = [x for x in walk_body(scan.body) if isinstance(x, ast.Compare) and isinstance(x.ops[0], ast.Eq)]
-            ok = bool(cmps) and U(cmps[0].left) == ovar and _derives_from_param(cmps[0].comparators[0], fn)
+            ok = bool(cmps) and U(cmps[0].left) == ovar and _derives_from_param(cmps[0].comparators[0], scan_fn)
             cx.require(ok, cmps[0] if cmps else scan, "%s: the scan compares the *original* side of every entry with the looked-up original" % o["cls"],
                        construct=short(cmps[0]) if cmps else "(no comparison)")
             found_atom = (U(cmps[0]), True) if cmps else None
             early = [x for x in walk_body(scan.body) if isinstance(x, (ast.Continue, ast.Break, ast.Return)) and found_atom not in guard_texts(x, stop=scan)]
             cx.require(not early, early[0] if early else scan, "%s: no entry is skipped by the scan (a jump out of the scan is allowed only once the original was found)" % o["cls"],
                        construct=short(early[0]) + " guarded by %s" % sorted(guard_texts(early[0], stop=scan)) if early else "for %s in %s" % (U(scan.target), U(scan.iter)))
-            flags = [a for a in walk_body(scan.body) if isinstance(a, ast.Assign) and U(a.value) == "True"]
+            # what the scan produces when it finds the original: an early return, a value variable, and/or a flag
+            in_found = [n for n in walk_body(scan.body) if found_atom in guard_texts(n, stop=scan)]
+            ret_in_loop = [n for n in in_found if isinstance(n, ast.Return)]
+            flags = [a for a in in_found if isinstance(a, ast.Assign) and U(a.value) == "True"]
             flag = U(flags[0].targets[0]) if flags else None
+            vals = [a for a in in_found if isinstance(a, ast.Assign) and isinstance(a.targets[0], ast.Name) and a.targets[0].id != flag]
+            valvar = U(vals[0].targets[0]) if vals else None
+            found_value = ret_in_loop[0].value if ret_in_loop else (vals[0].value if vals else None)
             g = set(guard_texts(st))
-            cx.require(flag is not None and (flag, False) in g and syn_dominates(scan, st), st, "%s: the insertion is guarded by 'not found' after the scan" % o["cls"],
+            if via is not None:
+                res = U(via.targets[0])
+                notfound = ("%s is None" % res, True) in g or (res, False) in g
+                helper_ok = bool(ret_in_loop) or valvar is not None
+                guard_ok = notfound and helper_ok and syn_dominates(via, st)
+            elif ret_in_loop:
+                guard_ok = syn_dominates(scan, st) or any(syn_dominates(scan, a) for a in [st] + list(ancestors(st)) if isinstance(a, ast.stmt))
+            else:
+                guard_ok = ((flag is not None and (flag, False) in g) or (valvar is not None and (("%s is None" % valvar, True) in g or (valvar, False) in g))) and \
+                    (syn_dominates(scan, st) or any(syn_dominates(scan, a) for a in ancestors(st) if isinstance(a, ast.stmt)))
+            cx.require(guard_ok, st, "%s: the insertion is reached only when the scan of the whole table found nothing" % o["cls"],
                        construct="%s guarded by %s" % (short(st), sorted(g)))
-            # found path returns the substitute side
-            rv = [a for a in walk_body(scan.body) if isinstance(a, ast.Assign) and isinstance(a.targets[0], ast.Name) and a.targets[0].id != flag]
-            ok = bool(rv) and svar in names_in(rv[0].value) and ovar not in names_in(rv[0].value)
             cx.rule("C09.R4", "roles (original, substitute) agree between issue, reuse, substitution and the reported mapping", floor=10)
-            cx.require(ok, rv[0] if rv else scan, "%s: a known original is answered with the substitute side of its entry" % o["cls"], construct=short(rv[0]) if rv else "(none)")
-            rets = [r for r in walk_body(fn.body) if isinstance(r, ast.Return)]
-            found_ret = [r for r in rets if flag and (flag, True) in guard_texts(r)]
-            cx.require(bool(found_ret) and bool(rv) and U(found_ret[0].value) == U(rv[0].targets[0]), found_ret[0] if found_ret else fn,
-                       "%s: the found substitute is returned" % o["cls"], construct=short(found_ret[0]) if found_ret else "(none)")
+            ok = found_value is not None and svar in names_in(found_value) and ovar not in names_in(found_value)
+            cx.require(ok, found_value if found_value is not None else scan, "%s: a known original is answered with the substitute side of its entry" % o["cls"], construct=short(found_value) if found_value is not None else "(none)")
+            if not ret_in_loop and via is None:
+                rets = [r for r in walk_body(fn.body) if isinstance(r, ast.Return)]
+                found_ret = [r for r in rets if (flag and (flag, True) in guard_texts(r)) or (valvar and (("%s is None" % valvar, False) in guard_texts(r) or (valvar, True) in guard_texts(r)))]
+                cx.require(bool(found_ret) and valvar is not None and U(found_ret[0].value) == valvar, found_ret[0] if found_ret else fn,
+                           "%s: the found substitute is returned" % o["cls"], construct=short(found_ret[0]) if found_ret else "(none)")
+            elif via is not None:
+                res = U(via.targets[0])
+                rets = [r for r in walk_body(fn.body) if isinstance(r, ast.Return) and (("%s is None" % res, False) in guard_texts(r) or (res, True) in guard_texts(r))]
+                cx.require(bool(rets) and U(rets[0].value) == res, rets[0] if rets else fn, "%s: the found substitute is returned" % o["cls"], construct=short(rets[0]) if rets else "(none)")
+            else:
+                cx.ok(ret_in_loop[0], "%s: the found substitute is returned straight from the scan" % o["cls"], construct=short(ret_in_loop[0]))
         else:
             g = set(guard_texts(st))
             k = U(K)
@@ -187,13 +214,22 @@ def r2_r3_r4(cx):
         mp = m.func("%s.mapping" % o["cls"], "C09.R4")
         loops = [s for s in walk_body(mp.body) if isinstance(s, ast.For)]
         dicts = [d for d in walk_body(mp.body) if isinstance(d, ast.Dict)]
-        if not loops or not dicts:
-            cx.unknown(mp, "mapping() does not build {'original':..., 'obfuscated':...} in a loop")
+        comps = [x for x in walk_body(mp.body) if isinstance(x, (ast.ListComp, ast.GeneratorExp)) and isinstance(x.elt, ast.Dict)]
+        if not dicts or not (loops or comps):
+            cx.unknown(mp, "mapping() does not build {'original':..., 'obfuscated':...} per table entry")
             continue
-        lp = loops[0]
-        cx.require(U(lp.iter) == "%s.items()" % db_attr and not has_exit(lp.body) and not [g for g in guard_texts(dicts[0], stop=lp)], lp,
-                   "%s.mapping() lists every entry of the table the substitution uses" % o["cls"], construct="for %s in %s" % (U(lp.target), U(lp.iter)))
-        kv = [U(e) for e in lp.target.elts]
+        if comps:
+            gen = comps[0].generators[0]
+            it, tgt = gen.iter, gen.target
+            complete = len(comps[0].generators) == 1 and not gen.ifs
+            lp = comps[0]
+        else:
+            lp = loops[0]
+            it, tgt = lp.iter, lp.target
+            complete = not has_exit(lp.body) and not [g for g in guard_texts(dicts[0], stop=lp)]
+        cx.require(U(it) == "%s.items()" % db_attr and complete, lp,
+                   "%s.mapping() lists every entry of the table the substitution uses" % o["cls"], construct="for %s in %s" % (U(tgt), U(it)))
+        kv = [U(e) for e in tgt.elts]
         d = dict((const_str(k), v) for k, v in zip(dicts[0].keys, dicts[0].values))
         ovar = kv[0] if orig_side == "key" else kv[1]
         svar = kv[1] if orig_side == "key" else kv[0]
@@ -228,9 +264,15 @@ def r4_keyword(cx):
     mp = m.func("Keyword.mapping", "C09.R4")
     lps = [s for s in walk_body(mp.body) if isinstance(s, ast.For)]
     dicts = [d for d in walk_body(mp.body) if isinstance(d, ast.Dict)]
-    ok = bool(lps) and bool(dicts) and U(lps[0].iter) == "self._obfuscated"
+    comps = [x for x in walk_body(mp.body) if isinstance(x, (ast.ListComp, ast.GeneratorExp)) and isinstance(x.elt, ast.Dict)]
+    if comps:
+        it, tgt = comps[0].generators[0].iter, comps[0].generators[0].target
+        ok = bool(dicts) and U(it) == "self._obfuscated" and not comps[0].generators[0].ifs
+    else:
+        it, tgt = (lps[0].iter, lps[0].target) if lps else (None, None)
+        ok = bool(lps) and bool(dicts) and U(it) == "self._obfuscated"
     if ok:
-        k = U(lps[0].target)
+        k = U(tgt)
         d = dict((const_str(kk), U(v)) for kk, v in zip(dicts[0].keys, dicts[0].values))
         ok = d == {"original": k, "obfuscated": "self._kw_db[%s]" % k}
     cx.require(ok, dicts[0] if dicts else mp, "Keyword.mapping() lists exactly the keywords that occurred, each with the substitute stored for it",
@@ -242,7 +284,13 @@ def r4_keyword(cx):
     db = m.func("Keyword._keywords2db", "C09.R4")
     st = [a for a in walk_body(db.body) if isinstance(a, ast.Assign) and U(a.targets[0]).startswith("self._kw_db[")]
     cnt = [a for a in walk_body(db.body) if isinstance(a, ast.AugAssign) and U(a.target) == "k_count"]
-    ok = bool(st) and bool(cnt) and "k_count" in U(trace(st[0].value, db)) and enclosing(cnt[0], ast.For) is enclosing(st[0], ast.For) and not guard_texts(cnt[0], stop=enclosing(cnt[0], ast.For))
+    lpk = enclosing(st[0], ast.For) if st else None
+    if cnt:
+        ok = bool(st) and "k_count" in U(trace(st[0].value, db)) and enclosing(cnt[0], ast.For) is lpk and not guard_texts(cnt[0], stop=lpk)
+    else:
+        # for <counter>, keyword in enumerate(keywords)
+        ok = bool(st) and lpk is not None and isinstance(lpk.iter, ast.Call) and call_name(lpk.iter) == "enumerate" and isinstance(lpk.target, ast.Tuple) and \
+            U(lpk.target.elts[0]) in names_in(trace(st[0].value, db))
     cx.require(ok, st[0] if st else db, "each keyword gets its own numbered substitute (counter advanced once per keyword)", construct=short(st[0]) if st else "(none)")
 
 
